@@ -61,7 +61,8 @@ def hStarts (toks : List String) : Option String := do
   let [b, k, g, a, l] ← ints rest | none
   let (lo, m) := genericRule env g.toNat
   let (lo', m') := envRule env g.toNat a.toNat l.toNat
-  pure s!"generic={natsStr (startsOf b.toNat k.toNat lo m)} method={natsStr (startsOf b.toNat k.toNat lo' m')}"
+  let code := genericStartsCode (lo != 0) b.toNat k.toNat m
+  pure s!"generic={natsStr code} method={natsStr (startsOf b.toNat k.toNat lo' m')}"
 
 def splitRows (w : Nat) : Nat → List Int → List (Nat → Bool)
   | 0, _ => []
@@ -111,6 +112,20 @@ def hLoader (toks : List String) : Option String := do
   let [bs] := hd | none
   pure s!"batches={batchesStr (loader bs.toNat (natsOf order) id)}"
 
+/-- `ops.evalcall | batch sizes | action length of each batch` → `EvalBase.__call__` on instances `0,1,…`
+whose reward is the id and whose action row is `len` copies of `id + 1` -/
+def hEvalCall (toks : List String) : Option String := do
+  let [_, sizes, lens] ← parseSections toks | none
+  let szs := natsOf sizes
+  let starts := szs.foldl (fun (acc : List Nat × Nat) s => (acc.1 ++ [acc.2], acc.2 + s)) ([], 0)
+  let batches : List (List (Nat × Nat)) :=
+    (List.range szs.length).map (fun b =>
+      (List.range (szs.getD b 0)).map (fun j => (starts.1.getD b 0 + j, (natsOf lens).getD b 0)))
+  let inner : List (Nat × Nat) → List (Nat × List Int) :=
+    fun xs => xs.map (fun x => (x.1, List.replicate x.2 (Int.ofNat (x.1 + 1))))
+  let (rw, rows) := evalCall inner batches
+  pure s!"rewards={natsStr rw} rows={";".intercalate (rows.map intsStr)}"
+
 /-! spec oracles on observed outcomes -/
 
 def hSpecExpand (toks : List String) : Option String := do
@@ -152,7 +167,7 @@ def handlers : List (String × (List String → Option String)) :=
   [("ops.batchify", hBatchify), ("ops.unbatchify", hUnbatchify), ("ops.rearrange", hRearrange),
    ("ops.gather", hGather), ("ops.bestactions", hBestActions), ("ops.numstarts", hNumStarts),
    ("ops.starts", hStarts), ("ops.opstarts", hOpStarts), ("ops.samplen", hSampleN), ("ops.selectbest", hSelectBest),
-   ("ops.loader", hLoader), ("ops.gatherdefault", hGatherDefault), ("ops.spec.expand", hSpecExpand), ("ops.spec.regroup", hSpecRegroup),
+   ("ops.loader", hLoader), ("ops.evalcall", hEvalCall), ("ops.gatherdefault", hGatherDefault), ("ops.spec.expand", hSpecExpand), ("ops.spec.regroup", hSpecRegroup),
    ("ops.spec.starts", hSpecStarts), ("ops.spec.best", hSpecBest), ("ops.spec.loader", hSpecLoader), ("ops.spec.fetch", hSpecFetch)]
 
 end Rl4co.Driver.Ops
